@@ -8,6 +8,7 @@ tensors of the public tomtom(...) call.  Coq then evaluates, per query, the exec
 the integer stage (C14/Model.v) and the independent reference (C14/Spec.v) on exactly these
 integers and compares them with the implementation's floats (converted exactly to rationals).
 """
+import json
 import math
 from fractions import Fraction
 
@@ -101,9 +102,58 @@ def stage(P, nb, n_median_bins=1000):
 
 
 def arrays(inp):
-    Qs = [numpy.array(q, dtype='float64').T.copy() for q in inp['Q']]
-    Ts = [numpy.array(t, dtype='float64').T.copy() for t in inp['T']]
+    """numpy arrays (alphabet, length) in the dtype the call uses (default float64)"""
+    Qs = [numpy.array(q, dtype='float64').T.astype(inp.get('Qdt', 'float64')).copy() for q in inp['Q']]
+    Ts = [numpy.array(t, dtype='float64').T.astype(inp.get('Tdt', 'float64')).copy() for t in inp['T']]
     return Qs, Ts
+
+
+_SHARED = {}
+
+
+def call_objects(inp, Qs, Ts):
+    """the objects handed to tomtom(): numpy arrays or torch tensors; inputs of one 'share' sequence reuse
+    the very same Python objects across calls (stale caches / in-place modification show up as a
+    disagreement of a later call with its reference, which is always computed from fresh arrays)"""
+    import torch
+    key = None
+    if inp.get('share') is not None:
+        key = json.dumps([inp['share'], inp['Q'], inp['T'], inp.get('Qdt'), inp.get('Tdt'),
+                          inp.get('Qform'), inp.get('Tform')])
+        if key in _SHARED:
+            return _SHARED[key]
+    qo = [torch.from_numpy(q.copy()) if inp.get('Qform') == 'torch' else q.copy() for q in Qs]
+    to = [torch.from_numpy(t.copy()) if inp.get('Tform') == 'torch' else t.copy() for t in Ts]
+    if key is not None:
+        if len(_SHARED) > 40:
+            _SHARED.clear()
+        _SHARED[key] = (qo, to)
+    return qo, to
+
+
+def call_kwargs(inp, st):
+    """keyword arguments of the tomtom(...) call and the n_cache value in force"""
+    nb = inp['nb']
+    if inp.get('bare'):                     # tomtom(Qs, Ts): every default (100 bins, hashing 100, n_cache 100, rc, all threads)
+        assert nb == 100 and inp['ntb'] == 100 and inp['rc']
+        return {}, 100
+    nc = inp.get('ncache', 2 * nb + 10)
+    maxoff = max(s_['off'] for s_ in st)
+    if nc == 'maxoff':
+        nc = maxoff
+    elif nc == 'maxoff+1':
+        nc = maxoff + 1
+    rc = inp['rc']
+    rc = {'int': int(rc), 'npbool': numpy.bool_(rc)}.get(inp.get('rc_form'), rc)
+    kw = dict(n_score_bins=nb, n_target_bins=inp['ntb'], reverse_complement=rc, n_cache=nc)
+    if inp.get('nmb') is not None:
+        kw['n_median_bins'] = inp['nmb']
+    nj = inp.get('n_jobs')
+    if nj == 'np3':
+        kw['n_jobs'] = numpy.int64(3)
+    elif nj:
+        kw['n_jobs'] = nj
+    return kw, nc
 
 
 def fl(v):
@@ -122,12 +172,14 @@ def run_impl(inp):
         P = prep(Qs, Ts, rc, ntb)
         if not P['injective']:
             return {'ok': False, 'why': 'hash-not-injective'}
-        st = stage(P, nb)
-        kw = dict(n_score_bins=nb, n_target_bins=ntb, reverse_complement=rc, n_cache=2 * nb + 10)
-        if inp.get('n_jobs'):
-            kw['n_jobs'] = inp['n_jobs']
-        r = tomtom(Qs, Ts, **kw)
+        st = stage(P, nb, inp.get('nmb') or 1000)
+        kw, ncache = call_kwargs(inp, st)
+        qo, to = call_objects(inp, Qs, Ts)
+        nT0 = len(to)
+        r = tomtom(qo, to, **kw)
         r = [t.numpy() for t in r]
+        modified = len(to) != nT0 or any(not numpy.array_equal(numpy.asarray(a), b) for a, b in zip(qo, Qs)) \
+            or any(not numpy.array_equal(numpy.asarray(a), b) for a, b in zip(to, Ts))
     except ZeroDivisionError:
         return {'ok': False, 'why': 'degenerate (all similarities equal: bin_scale division by zero)'}
     except Exception as e:   # an in-scope call must not raise
@@ -140,7 +192,8 @@ def run_impl(inp):
     return {'ok': True, 'stage': st, 'rows': rows,
             'counts': [int(c) for c in P['rr_counts']], 'tlens': [int(t) for t in P['T_lens']],
             'rrinv': [int(j) for j in P['rr_inv']], 'ncol': int(P['T'].shape[-1]),
-            'Tu': P['T'].T.tolist()}
+            'Tu': P['T'].T.astype('float64').tolist(), 'Qv': [q.T.astype('float64').tolist() for q in Qs],
+            'ncache': int(ncache), 'modified': bool(modified)}
 
 
 # ----------------------------------------------------------------------------------------
@@ -162,7 +215,7 @@ def call_lit(inp, out, qi):
     nb = inp['nb']
     td = '(mktd %d %s %s %s %s)' % (nb, C.zlist(out['counts']), C.natlist(out['tlens']),
                                     C.natlist(out['rrinv']), C.boolean(inp['rc']))
-    dm = '(mkdims %d %d)' % (max(len(q) for q in inp['Q']), 2 * nb + 10)
+    dm = '(mkdims %d %d)' % (max(len(q) for q in inp['Q']), out['ncache'])
     qd = '(mkqd %d %d %s)' % (nq, st['off'], C.zmat(st['x']))
     return '(mkcall %s %s %s)' % (td, dm, qd)
 
@@ -183,7 +236,7 @@ def model_cost(inp, out, qi):
     nq, nb, off = len(inp['Q'][qi]), inp['nb'], st['off']
     n = nq * (nb + off)
     qmax = max(len(q) for q in inp['Q'])
-    nlen = qmax * (nb + 2 * nb + 10)
+    nlen = qmax * (nb + out.get('ncache', 2 * nb + 10))
     tmax = max(out['tlens'])
     bits = max(1, sum(out['counts']).bit_length())
     a = sum((nb * j + 1) * (nb + 1 + nlen // 8) for j in range(nq) for _ in range(j + 1))
@@ -195,7 +248,7 @@ def mono_cases(inp, out, qi, limit=2):
     """exact squared distances of query columns to the unique target columns + the kernel's x"""
     res = []
     Tu = out['Tu']
-    for i, qc in enumerate(inp['Q'][qi][:limit]):
+    for i, qc in enumerate(out['Qv'][qi][:limit]):
         d2 = []
         for tc in Tu:
             d2.append(sum((Fraction(a) - Fraction(b)) ** 2 for a, b in zip(qc, tc)))
@@ -240,7 +293,7 @@ def recover_scale(nb, st):
         return None
     s0 = int(math.floor(nb / W))
     for s in (s0, s0 - 1, s0 + 1):
-        if s > 0 and off % s == 0 and off // s in (0, 1, 2, 3):
+        if s > 0 and off % s == 0 and 0 <= off // s <= 64:
             return s if (off > 0 or s == s0) else None
     return None
 
@@ -259,7 +312,7 @@ def int_cells(inp, out, qi, max_bracket=48):
     cells = []
     n_br = 0
     half = Fraction(1, 2)
-    for i, qc in enumerate(inp['Q'][qi]):
+    for i, qc in enumerate(out['Qv'][qi]):
         M = Fraction(st['med'][i])
         qf = [Fraction(a) for a in qc]
         q_dy = all(_dyadic(a) for a in qc)
@@ -320,7 +373,7 @@ def int_case(inp, out, qi):
     return '(KInt %s)' % C.lst(lits) if lits else None
 
 
-MODEL_BUDGET = 4_000_000
+MODEL_BUDGET = 2_500_000
 
 
 def coq_case(inp, out):
@@ -330,6 +383,11 @@ def coq_case(inp, out):
     parts = []
     for qi in range(len(inp['Q'])):
         wm = inp.get('with_model', True) and model_cost(inp, out, qi) <= MODEL_BUDGET
+        st = out['stage'][qi]
+        nq = len(inp['Q'][qi])
+        qmax = max(len(q) for q in inp['Q'])
+        if st['off'] > out['ncache'] or nq * (inp['nb'] + st['off']) >= qmax * (inp['nb'] + out['ncache']):
+            wm = False        # outside wf (offset == n_cache with nq == Q_max): the spec is silent, no model comparison
         parts.append('(KQuery %s %s %s)' % (C.boolean(wm), call_lit(inp, out, qi), outcome_lit(inp, out, qi)))
         if inp.get('mono', True):
             parts += mono_cases(inp, out, qi)
@@ -337,6 +395,13 @@ def coq_case(inp, out):
             k = int_case(inp, out, qi)
             if k:
                 parts.append(k)
+        # targets that are the query itself: best score at offset 0 with full overlap
+        start = 0
+        n_fwd = len(inp['T'])
+        for ti, tl in enumerate(out['tlens'][:n_fwd]):
+            if inp['T'][ti] == inp['Q'][qi]:
+                parts.append('(KSelf %s %d)' % (call_lit(inp, out, qi), start))
+            start += tl
     return '(KMany %s)' % C.lst(parts)
 
 
@@ -350,7 +415,7 @@ def _side_ok(inp, out):
             return False
         if nq * (inp['nb'] + st['off']) > 32767:
             return False
-        if st['off'] > 2 * inp['nb'] + 10:
+        if st['off'] > out.get('ncache', 2 * inp['nb'] + 10):
             return False
     return True
 
@@ -375,9 +440,9 @@ def hist_key(inp, out):
         return 'out-of-scope: ' + out['why'][:40]
     nb = inp['nb']
     zero = any(0 in row for st in out['stage'] for row in st['x'])
-    side = '' if _side_ok(inp, out) else '/SIDE-CONDITION-VIOLATED'
+    side = ('' if _side_ok(inp, out) else '/SIDE-CONDITION-VIOLATED') + ('/INPUT-MODIFIED' if out.get('modified') else '')
     qm = max(len(q) for q in inp['Q'])
-    return ('coarse/' if inp.get('coarse') else '') + 'bins<=20' * (nb <= 20) + 'bins21-100' * (20 < nb <= 100) + 'bins>100' * (nb > 100) + \
+    return ('coarse/' if inp.get('coarse') else '') + (inp['opt'] + '/' if inp.get('opt') else '') + 'bins<=20' * (nb <= 20) + 'bins21-100' * (20 < nb <= 100) + 'bins>100' * (nb > 100) + \
         '/nq<=8' * (qm <= 8) + '/nq>8' * (qm > 8) + ('/rc' if inp['rc'] else '/fwd') + \
         ('/hash' if inp['ntb'] else '') + ('/zero-sim' if zero else '') + side
 
@@ -475,6 +540,81 @@ def gen_coarse(rng):
             'ntb': 100 if rng.random() < 0.3 else None, 'coarse': True}
 
 
+def pwm_alpha(rs, L, A, alpha=0.4):
+    return rs.dirichlet([alpha] * A, size=L).tolist()
+
+
+def gen_options(rng, seq_id):
+    """a multi-call sequence in one process on the SAME objects: a base call, then follow-ups that change
+    exactly one thing (a parameter, its type, the container or dtype of the inputs)"""
+    rs = np_rng(rng)
+    alpha = rng.choice([0.3, 1.0])
+    grid = rng.choice([0, 0, 4])
+    Q = [pwm(rs, rng.randint(1, 6), alpha, grid) for _ in range(rng.randint(1, 2))]
+    T = [pwm(rs, rng.randint(1, 6), alpha, grid) for _ in range(rng.randint(2, 4))]
+    if rng.random() < 0.4:
+        T[0] = [list(c) for c in Q[0]]
+    if distinct_cols(T) < 2:
+        T.append(pwm(rs, 2, 1.0, 0))
+    nb = rng.choice([10, 20, 31, 50])
+    base = {'kind': 'tomtom', 'Q': Q, 'T': T, 'nb': nb, 'rc': rng.random() < 0.5, 'ntb': None,
+            'share': seq_id, 'opt': 'seq', 'mono': False}
+    yield dict(base)
+    changes = [
+        {'nb': nb + rng.choice([1, 7, 10])}, {'rc': not base['rc']}, {'ntb': rng.choice([10, 100, 1000])},
+        {'nmb': rng.choice([1, 7, 100, 5000])}, {'ncache': 'maxoff+1'}, {'ncache': 'maxoff'}, {'ncache': 5 * nb},
+        {'rc_form': rng.choice(['int', 'npbool'])}, {'n_jobs': rng.choice([1, 2, 'np3'])},
+        {'Tform': 'torch'}, {'Qform': 'torch'}, {'Qform': 'torch', 'Tform': 'torch'},
+        {'Qdt': 'float32', 'Tdt': 'float32'}, {'Tdt': 'float32', 'Tform': 'torch'},
+    ]
+    for ch in rng.sample(changes, 4):
+        yield dict(base, **ch)
+    yield dict(base)                         # the base call again, last
+
+
+def gen_forms(rng):
+    """input forms outside the usual 4-letter float64 PWM: other alphabet sizes, count matrices, an
+    alphabet row that no target uses (the T_max == T_min branch of the hashing), integer one-hot queries,
+    and the call with every default"""
+    rs = np_rng(rng)
+    kind = rng.choice(['alphabet', 'alphabet', 'pfm', 'constrow', 'onehot-int', 'bare', 'bare'])
+    nb = rng.choice([10, 20, 50])
+    inp = {'kind': 'tomtom', 'nb': nb, 'rc': rng.random() < 0.5, 'ntb': None, 'opt': kind, 'mono': False}
+    if kind == 'alphabet':
+        A = rng.choice([2, 3, 5, 20])
+        inp['Q'] = [pwm_alpha(rs, rng.randint(1, 5), A) for _ in range(rng.randint(1, 2))]
+        inp['T'] = [pwm_alpha(rs, rng.randint(1, 5), A) for _ in range(rng.randint(2, 4))]
+        inp['ntb'] = rng.choice([None, None, 100]) if A <= 5 else None
+    elif kind == 'pfm':                      # unnormalised counts
+        inp['Q'] = [rs.randint(0, 9, size=(rng.randint(1, 5), 4)).astype(float).tolist() for _ in range(rng.randint(1, 2))]
+        inp['T'] = [(rs.randint(0, 9, size=(rng.randint(1, 5), 4)) + numpy.eye(4)[rs.randint(4)]).astype(float).tolist()
+                    for _ in range(rng.randint(2, 4))]
+    elif kind == 'constrow':
+        def three(L):
+            p = rs.dirichlet([0.5] * 3, size=L)
+            if rng.random() < 0.5:
+                p = numpy.round(p * 4) / 4
+                p[p.sum(1) == 0] = [1, 0, 0]
+            return numpy.concatenate([p, numpy.zeros((L, 1))], axis=1).tolist()
+        inp['Q'] = [pwm(rs, rng.randint(1, 5), 0.4, 0)]
+        inp['T'] = [three(rng.randint(1, 5)) for _ in range(rng.randint(2, 4))]
+        inp['ntb'] = 100
+    elif kind == 'onehot-int':
+        eye = numpy.eye(4)
+        inp['Q'] = [eye[rs.randint(4, size=rng.randint(2, 8))].tolist() for _ in range(rng.randint(1, 2))]
+        inp['T'] = [pwm(rs, rng.randint(1, 6), 0.4, 0) for _ in range(rng.randint(2, 4))]
+        inp['Qdt'] = rng.choice(['int8', 'int64'])
+        inp['Qform'] = rng.choice(['numpy', 'torch'])
+    else:
+        inp.update(nb=100, rc=True, ntb=100, bare=True)
+        inp['Q'] = [pwm(rs, rng.randint(1, 8), 0.4, rng.choice([0, 4])) for _ in range(rng.randint(1, 2))]
+        inp['T'] = [pwm(rs, rng.randint(1, 8), 0.4, 0) for _ in range(rng.randint(2, 4))]
+        inp['T'].append([list(c) for c in inp['Q'][0]])
+    if distinct_cols(inp['T']) < 2:
+        inp['T'].append([[0.5, 0.5] + [0.0] * (len(inp['T'][0][0]) - 2)] + [[0.0] * (len(inp['T'][0][0]) - 1) + [1.0]])
+    return inp
+
+
 def gen_zero(rng):
     """single-column query with some integerised similarity equal to 0 (found by calling the kernel)"""
     rs = np_rng(rng)
@@ -506,11 +646,16 @@ def gen_zero(rng):
 def generate(tier, rng):
     quick = tier != 'thorough'
     small = list(range(1, 8))
-    n_small, n_zero, n_mid, n_long, n_big = (60, 8, 12, 7, 3) if quick else (280, 30, 50, 24, 6)
-    n_coarse = 24 if quick else 120
+    n_small, n_zero, n_mid, n_long, n_big = (40, 8, 7, 4, 2) if quick else (250, 30, 45, 22, 6)
+    n_coarse = 20 if quick else 100
     light, heavy = [], []
     for _ in range(n_coarse):
         light.append(gen_coarse(rng))
+    for _ in range(10 if quick else 50):
+        light.append(gen_forms(rng))
+    seqs = []
+    for k in range(4 if quick else 20):     # multi-call sequences keep their order and stay contiguous
+        seqs.append(list(gen_options(rng, k)))
     for _ in range(n_small):
         light.append(gen_call(rng, small, small, [5, 8, 10, 10, 15, 20, 20, 30]))
     for _ in range(n_zero):
@@ -524,7 +669,8 @@ def generate(tier, rng):
         c['mono'] = False
         heavy.append(c)
     for _ in range(n_big):                 # lengths up to 25 with fine score grids: reference only
-        c = gen_call(rng, [15, 20, 25], [3, 10, 18, 25], [100, 150, 200], big=True)
+        lq, nbig = rng.choice([(25, 100), (20, 150), (15, 200)])     # the reference's polynomial products grow with nq * bins
+        c = gen_call(rng, [lq], [3, 10, 18, 25], [nbig], big=True)
         c['with_model'] = False
         c['mono'] = False
         heavy.append(c)
@@ -539,6 +685,9 @@ def generate(tier, rng):
         light = light[per:]
     for c in out:
         yield c
+    for sq in seqs:
+        for c in sq:
+            yield c
 
 
 def shrink(inp):
